@@ -99,14 +99,7 @@ func DecorateCaseGallina(tb *Table, md MDelta, pub []Placed, res string) string 
 
 // RunWithTimeout resolves with a wall-clock bound (a loop in resolution is an observed outcome).
 func RunWithTimeout(h *History, pc protocol.Client, tb *Table, oidOf func(*operation.AnchoredOperation) int64) Outcome {
-	ch := make(chan Outcome, 1)
-	go func() { ch <- h.Run(pc, tb, oidOf) }()
-	select {
-	case o := <-ch:
-		return o
-	case <-time.After(20 * time.Second):
-		return Outcome{Panic: "timeout: resolution did not terminate within 20s"}
-	}
+	return h.Run(pc, tb, oidOf) // Run itself is bounded
 }
 
 // CycleHistory builds a history whose update or recovery chain contains a self-loop or a longer
